@@ -1,0 +1,33 @@
+//go:build verif
+
+package pruner
+
+// Accessors for the model-based verification harness (/verif, property C14). Compiled only with
+// the build tag `verif`; nothing here is referenced by production code.
+
+// VerifSetBatchCap sets maxHeadersPerLoop (the number of headers one iteration of the prune loop
+// handles at most) and returns the previous value.
+func VerifSetBatchCap(n int) int {
+	old := maxHeadersPerLoop
+	maxHeadersPerLoop = n
+	return old
+}
+
+// VerifCycle runs exactly one prune cycle synchronously: what run() does on every tick.
+// The service must have been started.
+func (s *Service) VerifCycle() {
+	s.prune(s.ctx)
+}
+
+// VerifCheckpoint returns a copy of the in-memory checkpoint; ok is false while none is loaded.
+func (s *Service) VerifCheckpoint() (last uint64, failed []uint64, ok bool) {
+	s.checkpointMu.Lock()
+	defer s.checkpointMu.Unlock()
+	if s.checkpoint == nil {
+		return 0, nil, false
+	}
+	for h := range s.checkpoint.FailedHeaders {
+		failed = append(failed, h)
+	}
+	return s.checkpoint.LastPrunedHeight, failed, true
+}
